@@ -222,6 +222,9 @@ class _Eliminator(DefaultTransformVisitor):
                         stmts.append(s)
                     case StmtBlock():
                         stmts.extend(s.stmts)
+                        if s.stmts and isinstance(s.stmts[-1], ReturnStmt):
+                            # a flattened `if True:` body that returns: the rest is unreachable
+                            break
                     case _:
                         raise RuntimeError(f'unexpected: {s}')
 
